@@ -330,7 +330,7 @@ def playback(scratch, h, fq, features, idx, prop):
            "--harness-timeout", "1800s", "--exact", "--harness", fq]
     if features:
         cmd += ["--features", ",".join(features)]
-    run_limited(cmd, scratch.repo, plog, 24 * 1024 * 1024, 2400)
+    run_limited(cmd, scratch.repo, plog, int(os.environ.get("VERIF_PLAYBACK_MEM_GB", "44")) * 1024 * 1024, 2400)
     out = open(plog).read()
     tests = []
     for t in PLAYBACK_RE.findall(out):
